@@ -13,22 +13,47 @@ CLAIM = dict(
           "the scaled value truncated toward zero, or the nearest end of the range (fp_total, fp_sat; the rule "
           "determines the result: spec_unique), is monotone (fp_mono), never leaves the range (fp_range), is within one "
           "LSB inside the range (fp_lsb); float_to_fp(fp_to_float(k)) = k for every in-range k that a double holds "
-          "exactly (fp_inverse; all |k| <= 2^53: exact53_of_small; impossible beyond: inverse_counterexample 2^53+1, "
-          "known finding); the NumPy array converter equals the scalar one element for element for 8/16/32 bits "
-          "(array_eq_scalar) and for 64 bits below the rounded clip bound (array64_eq_scalar_below_bound), while at or "
-          "above it the pinned code casts out of range (array64_defect_all: reported as a violation with a concrete "
-          "input; the repaired code is proved equal for all four widths: array_eq_scalar_repaired); the deprecated "
-          "float_to_fix (widths <= 64) never trips its assertion, equals float_to_fp modulo 2^n_bits whenever its float "
+          "exactly (fp_inverse), and these k are characterised exactly: k = m * 2^j with |m| <= 2^53, i.e. at most 53 "
+          "significant bits whatever the magnitude (exact53_iff, exact53_of_trailing_zeros, exact53_of_small; impossible "
+          "for any other k: inverse_counterexample 2^53+1, known finding). The model of int -> double conversion "
+          "(round53) is PROVED to be IEEE round-to-nearest, ties-to-even, to 53 significant bits: within half an ulp "
+          "with the even significand at a tie, significand in [2^52, 2^53] when rounding happens "
+          "(round53_nearest_even), no multiple of the ulp and no 53-bit dyadic of ANY exponent is closer and an equally "
+          "close different one forces the even significand (round53_nearest_on_grid, round53_nearest_all), monotone "
+          "(round53_mono), idempotent (round53_idem), odd (round53_neg), the identity up to 2^53 (round53_id_small). "
+          "The NumPy array converter equals the scalar one element for element for 8/16/32 bits (array_eq_scalar) and "
+          "for 64 bits below the rounded clip bound (array64_eq_scalar_below_bound), while at or above it the code "
+          "before fixes/c16-saturate-64bit.diff casts out of range (array64_defect_all); the repaired code is proved "
+          "equal for all four widths (array_eq_scalar_repaired). float32 / float16 INPUT ARRAYS: the code without "
+          "fixes/c16-float32-arrays.diff computes in the dtype of the input, and as soon as 2.0**n_frac is not a finite "
+          "value of that dtype (n_frac >= 16 for float16, >= 128 for float32) EVERY positive element saturates to the "
+          "maximum and every zero becomes NaN (array_narrow_scale_overflow, array_narrow_defect: float16 0.5 in S15.16 "
+          "gives 2^31-1 instead of 32768) - reported as violation array-float32-wrap with a concrete input until the "
+          "fix is applied; with the fix the element is converted by the float64 code on its exact value and equals the "
+          "scalar converter (array_eq_scalar_narrow_fixed). The deprecated float_to_fix, for EVERY width its "
+          "constructor accepts (n_int <= 1023; OverflowError from n_int = 1024 on is modelled: "
+          "deprecated_wide_rejected), never trips its assertion, equals float_to_fp modulo 2^n_bits whenever its float "
           "bound is exact (n_int <= 53; for every width after the repair) and fix_to_float equals fp_to_float on the "
           "two's-complement reading. Tied to rig/type_casts.py on every run by exact correspondence of all six "
           "converters on tens of thousands of generated values x formats (boundaries +-ulps, far beyond, subnormal, "
-          "negative; scalars and arrays of several shapes) with the Lean rule evaluated on every output."),
+          "negative; widths 1-1100; scalars and float64 / float32 / float16 arrays of several shapes) with the Lean "
+          "rule evaluated on every output."),
     design="3/C16",
-    note=("Doubles are modelled as (m, e) pairs; IEEE facts in the trusted base: scaling by a power of two is exact "
-          "barring overflow/underflow, int() truncates, int->double is round-to-nearest-even, np.clip compares exactly, "
-          "an out-of-range float->int cast is unspecified. Array input dtype float64 (float32 arrays are outside the "
-          "claim). NaN/inf inputs are outside the property. The model covers both the pinned code and the code after "
-          "fixes/c16-saturate-64bit.diff; the harness detects which one the tree contains."),
+    note=("Doubles are modelled as (m, e) pairs. PROVED inside the model (no longer trusted): the model's int -> "
+          "double conversion is round-to-nearest-even to 53 bits, monotone, idempotent, exact up to 2^53 and for every "
+          "integer with at most 53 significant bits; float(2^n - 1) for every n. TRUSTED (validated by the "
+          "correspondence on every run, not proved): CPython's int -> float conversion and NumPy's int64/uint64 -> "
+          "float64 cast ARE IEEE round-to-nearest-even; multiplying a binary float by a power of two is exact absent "
+          "overflow / underflow (rounded to the subnormal grid below); int() truncates; np.clip compares exactly; an "
+          "out-of-range or NaN float -> int cast is unspecified; for float32 / float16 arrays on the unfixed code: "
+          "NumPy >= 2 promotion (Python scalars take the array's dtype). VALIDATED only (correspondence, no theorem): "
+          "the element-wise behaviour of the unfixed code on float32 / float16 arrays outside the two proved defect "
+          "classes (npFloatToFixNarrow: 0 mismatches); results the model calls 'unspecified' are not compared. "
+          "A narrow-dtype element is reported as a violation only when its scaled value is a finite number of its own "
+          "dtype (the narrowest reading of 'scaled value is still a finite float'). np.longdouble arrays, NaN and "
+          "infinite inputs are outside the claim. The model covers the code before and after "
+          "fixes/c16-saturate-64bit.diff and before and after fixes/c16-float32-arrays.diff; the harness detects which "
+          "the tree contains (evidence: code_variant)."),
     technique="Lean 4 theorems over a hand-written model + differential correspondence + Lean spec as oracle")
 
 THEOREMS = ["dtypes_cover", "fp_total", "fp_sat", "spec_unique", "spec_range", "fp_range", "fp_lsb", "fp_mono",
@@ -36,7 +61,7 @@ THEOREMS = ["dtypes_cover", "fp_total", "fp_sat", "spec_unique", "spec_range", "
             "array_eq_scalar", "array64_eq_scalar_below_bound", "array64_defect_all", "array64_defect",
             "array_eq_scalar_repaired",
             "deprecated_no_assert", "deprecated_twos_complement", "deprecated_twos_complement_repaired",
-            "deprecated64_defect", "fix_to_float_eq", "specFp_iff_rat",
+            "deprecated64_defect", "deprecated_wide_rejected", "fix_to_float_eq", "specFp_iff_rat",
             # Props/C16Round.lean: the IEEE facts about int -> double conversion proved inside the model
             "exact53_of_trailing_zeros", "exact53_iff", "round53_neg", "round53_idem", "round53_id_small",
             "round53_mono", "round53_nearest_even", "round53_nearest_on_grid", "round53_nearest_all",
@@ -46,11 +71,15 @@ THEOREMS = ["dtypes_cover", "fp_total", "fp_sat", "spec_unique", "spec_range", "
 
 RULE = ("one case = one format (signed, n_bits, n_frac) with 6-24 doubles built around the format: exactly at, one and "
         "two ulps around min-1, min, max, max+1 (scaled), in-range values with fractional parts, far beyond, "
-        "subnormal, zero, negative, log-uniform random; formats: widths 8/16/32/64 mostly plus every width 1-70, "
+        "subnormal, zero, negative, log-uniform random; formats: widths 8/16/32/64 mostly plus every width 1-70, wide "
+        "widths 71-1100 (around 1023/1024 where the deprecated constructor starts to raise), "
         "n_frac in, below (negative) and above the width plus extreme exponents; arrays in shapes (n,), (n,1), (1,n), "
-        "(a,b), 0-d, python scalar, strided view; inverse cases: integers at the ends, +-1, 53/54/63/64-bit patterns. "
+        "(a,b), 0-d, python scalar, strided view; narrow cases: float32 / float16 arrays (values rounded to the dtype, its "
+        "largest / least values, scaled values around the dtype's overflow threshold) with n_frac around the points "
+        "where 2.0**n_frac overflows / underflows the dtype; inverse cases: integers at the ends, +-1, 53/54/63/64-bit "
+        "patterns. "
         "A case is non-trivial when it contains both a saturating value and an in-range value whose scaled value has a "
-        "fractional part (conversion cases) or an in-range integer of more than 24 bits (inverse cases); distinct = "
+        "fractional part (conversion and narrow cases) or an in-range integer of more than 24 bits (inverse cases); distinct = "
         "distinct canonical JSON")
 
 NP_BITS = (8, 16, 32, 64)
@@ -875,11 +904,15 @@ FIXED = [
 def run(ctx):
     ctx.extra["rule"] = RULE
     ctx.assumptions += [
-        "inputs are finite IEEE doubles (float / float64 arrays); float32 arrays, NaN and infinities are outside the claim",
-        "scaling a double by a power of two is exact barring overflow/underflow; int() truncates; int->double is "
-        "round-to-nearest-even; np.clip compares exactly; an out-of-range float->int cast is unspecified",
+        "inputs are finite IEEE binary floats (python float, float64 / float32 / float16 arrays); np.longdouble arrays, "
+        "NaN and infinities are outside the claim",
+        "CPython int->float and NumPy int64/uint64->float64 are IEEE round-to-nearest-even (the model's round53 is "
+        "PROVED to be that rounding); scaling a binary float by a power of two is exact barring overflow/underflow; "
+        "int() truncates; np.clip compares exactly; an out-of-range / NaN float->int cast is unspecified",
+        "float32 / float16 arrays on code without fixes/c16-float32-arrays.diff: NumPy >= 2 promotion (python scalars "
+        "take the array's dtype); an element counts as a violation only when its scaled value is finite in its own dtype",
         "formats: the array converter accepts widths 8/16/32/64 only; the deprecated converters accept "
-        "0 <= n_frac <= n_bits - signed only (ValueError otherwise, modelled)",
+        "0 <= n_frac <= n_bits - signed and n_int <= 1023 only (ValueError / OverflowError otherwise, modelled)",
     ]
     rng = ctx.rng
     n_conv = ctx.scale(2500, 62000)
